@@ -13,6 +13,7 @@ are not compared.  Every call into the system under test is wrapped.
 """
 import copy
 import sys
+from ..core.rng import errname
 
 RISCV_INSP = [
     "get_register_entries",
@@ -667,12 +668,12 @@ class Subject:
             ret = getattr(sut, call)()
             out = ("ok", ret)
         except Exception as e:  # noqa: BLE001
-            out = ("raised", type(e).__name__, getattr(e, "address", None))
+            out = ("raised", errname(e), getattr(e, "address", None))
         try:
             ret16 = getattr(self.s16, call)()
             out16 = ("ok", ret16)
         except Exception as e:  # noqa: BLE001
-            out16 = ("raised", type(e).__name__, getattr(e, "address", None))
+            out16 = ("raised", errname(e), getattr(e, "address", None))
         self.hs.add(call, out)
         if out != out16:
             self.violate("C16", "step-outcome-differs-from-uninspected-shadow", expected=out16, got=out, call=call)
@@ -738,7 +739,7 @@ class Subject:
                 s.run()
                 outs.append(("ok",))
             except Exception as e:  # noqa: BLE001
-                outs.append(("raised", type(e).__name__, getattr(e, "address", None)))
+                outs.append(("raised", errname(e), getattr(e, "address", None)))
         self.hs.add("run", outs[0])
         if outs[0] != outs[1]:
             self.violate("C16", "run-outcome-differs-from-uninspected-shadow", expected=outs[1], got=outs[0])
